@@ -51,6 +51,11 @@ class AllocRule(sym.Rule):
                     return (rs - {rec}) | {rec[:4] + (obj_of(ev.addr), rec[5], rec[6])}
                 if ev.field == 1 and ev.val == rec[1] and rec[4] is not None \
                         and obj_of(ev.addr) == rec[4]:
+                    if not (f.name in self.ctor_ctx and rec[4] == ((('arg', 0), 1),)):
+                        # committed to a live container: from here on its destructor owns the
+                        # block (consistency of that container's words is rule R02.1)
+                        self._ok(f, rec, 'committed')
+                        return rs - {rec}
                     return (rs - {rec}) | {rec[:5] + (obj_of(ev.addr), rec[6])}
                 if ev.field is None and ev.val == rec[0]:
                     # pointer stored into some other object (e.g. heap_temporary::m_data_ptr):
